@@ -114,9 +114,15 @@ def base_scenario(seed, index, ex="asyncio"):
             callers.append({"start": 0.0,
                             "ops": [mkop("s1", "a.test", {"body": 0, "resp_len": 10,
                                                           "consume": "all"})]})
-    return {"seed": seed, "exec": ex, "sched": "fifo", "pool": pool, "net": net,
-            "callers": callers, "ctype": ctype, "company": company,
-            "epilogue": ["settle", "observe", "probe", "close_pool"]}
+    scn = {"seed": seed, "exec": ex, "sched": "fifo", "pool": pool, "net": net,
+           "callers": callers, "ctype": ctype, "company": company,
+           "epilogue": ["settle", "observe", "probe", "close_pool"]}
+    if ex == "threads":
+        scn.pop("sched")
+        scn["policy"] = {"mode": "ops", "op_p": 0.5}
+    elif ex == "trio":
+        scn.pop("sched")
+    return scn
 
 
 class EpilogueObserver:
@@ -292,6 +298,16 @@ class SweepFamily(Family):
             nxt_same = k < len(sites) and sites[k] == s_here
             if run_before < 2 or not nxt_same:
                 ks.append(k)
+        if self.ex == "trio":
+            for k in range(1, steps + 1):
+                s = copy.deepcopy(base)
+                s["cancel"] = {"caller": "c0", "kind": "scope", "timing": "early", "step": k}
+                out.append(s)
+            times = sorted({e[1] for e in dry.world.ledger.ev if e[2] == "op"})
+            for t in times[:40]:
+                s = copy.deepcopy(base)
+                s["cancel"] = {"caller": "c0", "kind": "deadline", "t": t}
+                out.append(s)
         if self.ex == "asyncio":
             for kind in self.kinds:
                 for timing in ("early", "late"):
@@ -370,8 +386,12 @@ class SweepFamily(Family):
         return getattr(self, "check_seed", 0)
 
 
-FAMS05 = [SweepFamily("C05", "sweep-async", 55, 550)]
-FAMS06 = [SweepFamily("C06", "sweep-async", 55, 550)]
+FAMS05 = [SweepFamily("C05", "sweep-async", 55, 550),
+          SweepFamily("C05", "sweep-trio", 22, 220, ex="trio"),
+          SweepFamily("C05", "sweep-threads", 22, 220, ex="threads")]
+FAMS06 = [SweepFamily("C06", "sweep-async", 55, 550),
+          SweepFamily("C06", "sweep-trio", 22, 220, ex="trio"),
+          SweepFamily("C06", "sweep-threads", 22, 220, ex="threads")]
 
 register("C05", {
     "level": "fault_enumeration",
